@@ -237,11 +237,50 @@ OneWavPerSampleOrPair ==
          pairs == Cardinality({f \in 1..Len(vol.files) : vol.files[f].pair = "L"})
      IN Cardinality(ExpectedVol(p, img.parts[p], vol)) = n - pairs
 
+\* ---- truncation (C15) --------------------------------------------------------------------
+\* absolute image offset just behind the last byte an exported file depends on: the partition head (header, volume
+\* entries, SAT), its volume's file table up to and including the end marker, and per channel the sample header and
+\* the data extents.  A file whose Need <= cut lies entirely before the cut and must be exported complete.
+Max2(a, b) == IF a > b THEN a ELSE b
+RECURSIVE MaxOfSeq(_, _)
+MaxOfSeq(sq, k) == IF k = 0 THEN 0 ELSE Max2(sq[k], MaxOfSeq(sq, k - 1))
+PartBase(p) == (p - 1) * NSect * S
+TableNeed(p, vol) ==
+  LET bytes == (vol.blanks + Len(vol.files)) * 24 + 10          \* through the end-marker word of the closing entry
+      nsec == (bytes + S - 1) \div S
+      last == bytes - (nsec - 1) * S
+  IN MaxOfSeq([k \in 1..nsec |-> PartBase(p) + vol.dir[k] * S + (IF k = nsec THEN last ELSE S)], nsec)
+FileNeed(p, file) ==
+  LET ex == Extents(file) IN
+  Max2(PartBase(p) + file.chain[1] * S + H,
+       MaxOfSeq([k \in 1..Len(ex) |-> PartBase(p) + ex[k].sector * S + ex[k].off + ex[k].len], Len(ex)))
+NeedOfVol(p, vol) ==
+  LET idxs == {f \in 1..Len(vol.files) : IsSample(vol.files[f])} IN
+  {[path |-> <<PartName(p), vol.name, IF vol.files[f].pair = "" THEN vol.files[f].name ELSE vol.files[f].stem>>,
+    need |-> Max2(Max2(PartBase(p) + FirstData * S - 2, TableNeed(p, vol)),
+                  IF vol.files[f].pair = "" THEN FileNeed(p, vol.files[f])
+                  ELSE MaxOfSeq([g \in 1..Len(vol.files) |-> IF vol.files[g].stem = vol.files[f].stem THEN FileNeed(p, vol.files[g]) ELSE 0], Len(vol.files)))]
+   : f \in idxs}
+Needs(im) == UNION {UNION {NeedOfVol(p, im.parts[p].vols[v]) : v \in 1..Len(im.parts[p].vols)} : p \in 1..Len(im.parts)}
+\* cut points: every sector boundary and its neighbours, and points inside the header, the SAT, each directory
+\* sector, each sample header and each data extent
+Cuts(im) ==
+  LET total == Len(im.parts) * NSect * S
+      bounds == {k * S : k \in 0..(Len(im.parts) * NSect)}
+      inner == UNION {{PartBase(p) + 100, PartBase(p) + 2000}
+                      \cup UNION {{PartBase(p) + im.parts[p].vols[v].dir[1] * S + 30} : v \in 1..Len(im.parts[p].vols)}
+                      \cup UNION {{PartBase(p) + FileAt(im.parts[p], vf).chain[1] * S + 70,
+                                   PartBase(p) + FileAt(im.parts[p], vf).chain[Len(FileAt(im.parts[p], vf).chain)] * S + (S \div 2) + 1}
+                                  : vf \in VF(im.parts[p])}
+                      : p \in 1..Len(im.parts)}
+  IN {c \in bounds \cup {b - 1 : b \in bounds} \cup {b + 1 : b \in bounds} \cup inner : c >= 0 /\ c <= total}
+NeedsWithinImage == done => \A n \in Needs(img) : n.need <= Len(img.parts) * NSect * S
+
 Emit ==
   (EmitCases /\ done) =>
      PrintT(<<"CASE", ToJson([S |-> S, H |-> H, T |-> T, nsect |-> NSect, first |-> FirstData,
                               parts |-> [p \in 1..Len(img.parts) |->
                                            [vols |-> img.parts[p].vols, sys |-> img.parts[p].sys,
                                             sat |-> {pr \in SatPairs(img.parts[p]) : pr[2] # 0}]],
-                              expected |-> Expected(img)])>>)
+                              expected |-> Expected(img), needs |-> Needs(img), cuts |-> Cuts(img)])>>)
 =============================================================================
